@@ -959,3 +959,36 @@ theorem tempo_http_ends_positive (s : Int) :
         refine ⟨rfl, by omega, by omega⟩
 
 end Qryn.C13
+
+/-! ## "never miss data inside the window": the Prometheus select's window `[hints.Start, hints.End]` includes both ends -/
+namespace Qryn.C13
+open Qryn Qryn.Sql Qryn.LogQL Qryn.Confine Qryn.Prom
+
+/-- **prom_window_covered.** The WHERE of the raw-sample scan (`InitClickhousePlanner`) and of the rollup scan
+    (`InitDownsamplePlanner`) admits every row of the metrics signal stamped anywhere in the CLOSED window `[From, To]` — in
+    particular a sample stamped exactly `hints.End`, the evaluation time of an instant query and of the last step. Together with
+    `all_scans_confined_prom` (nothing outside): these scans read exactly the window. -/
+theorem prom_window_covered (o : Oracles) (env : Env) (c : Ctx) (r : Row) (ts : Int) (h1 : c.fromNs ≤ ts) (h2 : ts ≤ c.toNs)
+    (hts : r.get "samples.timestamp_ns" = .int ts) (hty : r.get "type" = .int (winOf c).tp) (m15 : String) :
+    optB o env r (whereOf (initRaw c)) = true ∧ optB o env r (whereOf (initDown c m15)) = true := by
+  have key : optB o env r (some (and_ [ge (.raw "samples.timestamp_ns") (.int c.fromNs), le (.raw "samples.timestamp_ns") (.int c.toNs), getTypes c])) = true := by
+    simp only [optB, evalB, evalE_and, truthy_boolVal, evalAll_cons, Bool.and_eq_true]
+    refine ⟨?_, ?_, ?_, ?_⟩
+    · simp [evalE_ge, hts, cmpOp, Val.cmpLe, h1]
+    · simp [evalE_le, hts, cmpOp, Val.cmpLe, h2]
+    · have := evalB_isIn_ints (o := o) (env := env) (r := r) (.raw "type") (if c.tp = 0 then 1 else (c.tp : Int)) 0
+      simp only [evalB] at this
+      simp only [getTypes]
+      rw [this]
+      simp [hty, winOf]
+    · rfl
+  exact ⟨key, key⟩
+
+/-- **prom_strict_upper_cuts_the_end.** COUNTER-PATTERN (seeded change C13-6: the LogQL half-open bound `< To` shared with the
+    PromQL planners): a sample stamped exactly `To` does not pass `samples.timestamp_ns < To` — data inside the window is missed. -/
+theorem prom_strict_upper_cuts_the_end (o : Oracles) (env : Env) (r : Row) (toNs : Int)
+    (hts : r.get "samples.timestamp_ns" = .int toNs) :
+    evalB o env r (lt (.raw "samples.timestamp_ns") (.int toNs)) = false := by
+  simp [evalB, evalE_lt, hts, cmpOp, Val.cmpLt]
+
+end Qryn.C13
